@@ -23,12 +23,58 @@ Definition epoch_t_wf (t : epoch_t) : Prop :=
   (0 <= ep_s7 t)%Z /\ fits_F 11 7 (ep_s7 t) /\
   match ep_clk t with None => True | Some c => fits_F 15 12 c end.
 
+(* ------------------------------------------------------------------------------------------ optional header records *)
+Inductive hrec :=
+| HMarkerNumber (s : string)                    (* MARKER NUMBER        A20 *)
+| HReceiver (num type vers : string)            (* REC # / TYPE / VERS  3A20 *)
+| HAntenna (num type : string)                  (* ANT # / TYPE         2A20 *)
+| HPosition (x y z : Z)                         (* APPROX POSITION XYZ  3F14.4, units of 1e-4 m *)
+| HDelta (h e n : Z)                            (* ANTENNA: DELTA H/E/N 3F14.4 *)
+| HInterval (i : Z)                             (* INTERVAL             F10.3 *)
+| HComment (text : string)                      (* COMMENT              A60 *)
+| HLastObs (t : epoch_t).                       (* TIME OF LAST OBS     5I6, F13.7, 5X, A3 *)
+
+Definition last_obs_pieces (t : epoch_t) : list string :=
+  [render_int 6 (ep_y t); render_int 6 (ep_mo t); render_int 6 (ep_d t); render_int 6 (ep_h t); render_int 6 (ep_mi t);
+   render_F 13 7 (ep_s7 t); "     "; "GPS"].
+Definition render_hrec (r : hrec) : string :=
+  match r with
+  | HMarkerNumber s => hdr_line (cat [ljust 20 s]) "MARKER NUMBER"
+  | HReceiver a b c => hdr_line (cat [ljust 20 a; ljust 20 b; ljust 20 c]) "REC # / TYPE / VERS"
+  | HAntenna a b => hdr_line (cat [ljust 20 a; ljust 20 b]) "ANT # / TYPE"
+  | HPosition x y z => hdr_line (cat [render_F 14 4 x; render_F 14 4 y; render_F 14 4 z]) "APPROX POSITION XYZ"
+  | HDelta h e n => hdr_line (cat [render_F 14 4 h; render_F 14 4 e; render_F 14 4 n]) "ANTENNA: DELTA H/E/N"
+  | HInterval i => hdr_line (cat [render_F 10 3 i]) "INTERVAL"
+  | HComment t => hdr_line (cat [ljust 60 t]) "COMMENT"
+  | HLastObs t => hdr_line (cat (last_obs_pieces t)) "TIME OF LAST OBS"
+  end.
+Definition text_ok (w : nat) (s : string) : Prop := trimmed s = true /\ len s <= w.
+Definition hrec_ok (year : Z) (r : hrec) : Prop :=
+  match r with
+  | HMarkerNumber s => text_ok 20 s
+  | HReceiver a b c => text_ok 20 a /\ text_ok 20 b /\ text_ok 20 c
+  | HAntenna a b => text_ok 20 a /\ text_ok 20 b
+  | HPosition x y z => fits_F 14 4 x /\ fits_F 14 4 y /\ fits_F 14 4 z
+  | HDelta h e n => fits_F 14 4 h /\ fits_F 14 4 e /\ fits_F 14 4 n
+  | HInterval i => fits_F 10 3 i
+  | HComment t => text_ok 60 t
+  | HLastObs t => epoch_t_wf t /\ fits_int 6 (ep_y t) /\ fits_F 13 7 (ep_s7 t) /\ ep_y t = year     (* same year as the first observation *)
+  end.
+
+(* optional records before the marker, between marker and types, between types and first obs, after first obs - any records, any order *)
+Record hextras := { hx0 : list hrec; hx1 : list hrec; hx2 : list hrec; hx3 : list hrec }.
+Definition rx (l : list hrec) : list string := map render_hrec l.
+Definition hextras_ok (year : Z) (x : hextras) : Prop :=
+  Forall (hrec_ok year) (hx0 x) /\ Forall (hrec_ok year) (hx1 x) /\ Forall (hrec_ok year) (hx2 x) /\ Forall (hrec_ok year) (hx3 x).
+Definition no_extras : hextras := {| hx0 := []; hx1 := []; hx2 := []; hx3 := [] |}.
+
 (* ------------------------------------------------------------------------------------------ RINEX 3 *)
 Record sat3 := { s3_id : string; s3_cells : list cell; s3_cut : bool }.
 Record epoch3 := { e3_t : epoch_t; e3_sats : list sat3 }.
 Record file3 := { f3_marker : string;
                   f3_systypes : list (string * list string);       (* SYS / # / OBS TYPES, in header order *)
                   f3_first : epoch_t;                              (* TIME OF FIRST OBS (GPS) *)
+                  f3_x : hextras;                                  (* optional header records *)
                   f3_epochs : list epoch3 }.
 
 (* > yyyy mm dd hh mm ss.sssssss  f nnn      ccc.cccccccccccc     A1,1X,I4,4(1X,I2.2),F11.7,2X,I1,I3,6X,F15.12 *)
@@ -63,7 +109,8 @@ Definition first_obs_pieces (t : epoch_t) : list string :=
 Definition first_obs_line (t : epoch_t) : string := hdr_line (cat (first_obs_pieces t)) "TIME OF FIRST OBS".
 Definition first_ok (t : epoch_t) : Prop := epoch_t_wf t /\ fits_int 6 (ep_y t) /\ fits_F 13 7 (ep_s7 t).
 Definition render_header3 (f : file3) : list string :=
-  hdr_line (f3_marker f) "MARKER NAME" :: concat (map types_lines_v3 (f3_systypes f)) ++ [first_obs_line (f3_first f); end_of_header].
+  rx (hx0 (f3_x f)) ++ hdr_line (f3_marker f) "MARKER NAME" :: rx (hx1 (f3_x f)) ++ concat (map types_lines_v3 (f3_systypes f))
+  ++ rx (hx2 (f3_x f)) ++ first_obs_line (f3_first f) :: rx (hx3 (f3_x f)) ++ [end_of_header].
 Definition render_file3 (f : file3) : list string := render_header3 f ++ render_body_v3 (f3_epochs f).
 
 (* well-formedness *)
@@ -81,7 +128,8 @@ Definition epoch3_ok st (e : epoch3) : Prop :=
   epoch_t_wf (e3_t e) /\ fits_int 3 (Z.of_nat (List.length (e3_sats e))) /\ Forall (sat3_ok st) (e3_sats e).
 Definition file3_ok (f : file3) : Prop :=
   trimmed (f3_marker f) = true /\ len (f3_marker f) <= 60 /\
-  systypes_ok (f3_systypes f) /\ first_ok (f3_first f) /\ Forall (epoch3_ok (f3_systypes f)) (f3_epochs f).
+  systypes_ok (f3_systypes f) /\ first_ok (f3_first f) /\ hextras_ok (ep_y (f3_first f)) (f3_x f) /\
+  Forall (epoch3_ok (f3_systypes f)) (f3_epochs f).
 
 (* ------------------------------------------------------------------------------------------ RINEX 2 *)
 Record sat2 := { s2_id : string; s2_cells : list cell; s2_cut : bool }.
@@ -89,6 +137,7 @@ Record epoch2 := { e2_t : epoch_t; e2_sats : list sat2 }.
 Record file2 := { f2_marker : string;
                   f2_types : list string;                 (* # / TYPES OF OBSERV *)
                   f2_first : epoch_t;                     (* TIME OF FIRST OBS (GPS) *)
+                  f2_x : hextras;                         (* optional header records *)
                   f2_epochs : list epoch2 }.
 
 (* # / TYPES OF OBSERV: I6, 9(4X,A2); continuation 6X, 9(4X,A2) *)
@@ -102,7 +151,8 @@ Definition types_lines_v2 (types : list string) : list string :=
                 :: map (fun c => hdr_line (types_body_v2 None c) types_label_v2) cr
   end.
 Definition render_header2 (f : file2) : list string :=
-  hdr_line (f2_marker f) "MARKER NAME" :: types_lines_v2 (f2_types f) ++ [first_obs_line (f2_first f); end_of_header].
+  rx (hx0 (f2_x f)) ++ hdr_line (f2_marker f) "MARKER NAME" :: rx (hx1 (f2_x f)) ++ types_lines_v2 (f2_types f)
+  ++ rx (hx2 (f2_x f)) ++ first_obs_line (f2_first f) :: rx (hx3 (f2_x f)) ++ [end_of_header].
 
 (* EPOCH/SAT: 1X,I2.2, 4(1X,I2), F11.7, 2X,I1, I3, 12(A1,I2), F12.9; continuation 32X, 12(A1,I2) *)
 Definition epoch_head_v2 (t : epoch_t) (nsat : Z) : list string :=
@@ -139,5 +189,5 @@ Definition file2_ok (f : file2) : Prop :=
   trimmed (f2_marker f) = true /\ len (f2_marker f) <= 60 /\
   f2_types f <> [] /\ NoDup (f2_types f) /\ Forall type2_ok (f2_types f) /\ fits_int 6 (Z.of_nat (List.length (f2_types f))) /\
   epoch_t_wf (f2_first f) /\ (1000 <= ep_y (f2_first f) < 10000)%Z /\
-  fits_int 6 (ep_y (f2_first f)) /\ fits_F 13 7 (ep_s7 (f2_first f)) /\
+  fits_int 6 (ep_y (f2_first f)) /\ fits_F 13 7 (ep_s7 (f2_first f)) /\ hextras_ok (ep_y (f2_first f)) (f2_x f) /\
   Forall (epoch2_ok (ep_y (f2_first f) / 100) (List.length (f2_types f))) (f2_epochs f).
